@@ -46,7 +46,7 @@ ASSUMPTIONS = [
     "age == expiration exactly is unspecified; expiration=0 and unhashable arguments are not generated",
     "identity-hashed receivers in the base workload; ==-equal distinct receivers run as a separate family",
 ]
-MINIMUMS = {"monitor:required-hit": 20000, "monitor:right-key": 20000, "monitor:capacity": 20000, "evictions_forced": 2000, "expiry_boundary_crossed": 2000, "required_hit_after_reorder": 300, "histories_with_hash_colliding_keys": 100, "recursive_histories": 100, "expired_while_in_flight": 10, "calls_from_inside_scopes": 6, "calls_after_a_cancelled_invocation": 3, "same_key_reentrant_histories": 2, "calls_of_callables_with_another_advertised_signature": 4, "expiring_histories_with_slow_synchronous_invocations": 100}
+MINIMUMS = {"monitor:required-hit": 20000, "monitor:right-key": 20000, "monitor:capacity": 20000, "evictions_forced": 2000, "expiry_boundary_crossed": 2000, "required_hit_after_reorder": 300, "histories_with_hash_colliding_keys": 100, "recursive_histories": 100, "expired_while_in_flight": 10, "calls_from_inside_scopes": 6, "calls_after_a_cancelled_invocation": 3, "same_key_reentrant_histories": 2, "calls_of_callables_with_another_advertised_signature": 4, "expiring_histories_with_slow_synchronous_invocations": 100, "histories_with_awaitable_results": 200}
 JOBS = {"quick": 4, "thorough": 16}
 LEVEL_TEXT = (
     "All histories up to the tier's length (quick 5-6, thorough 7) over 3 typed-distinct keys and 2 dyadic clock advances are run for every "
@@ -64,6 +64,18 @@ class Result:
 
     def __init__(self, tag: tuple[Any, ...]) -> None:
         self.tag = tag
+
+
+class AwaitableResult(Result):
+    """a result that is awaitable and perfectly re-usable (a finished Future / Task handed out by a synchronous factory - the memoised
+    future pattern): a value like any other as far as the cache is concerned"""
+
+    __slots__ = ()
+
+    def __await__(self) -> Any:
+        if False:
+            yield None
+        return self.tag
 
 
 class CallFailed(Exception):
@@ -149,7 +161,7 @@ def run_history(R: Recorder, case: dict[str, Any], verbose: bool = False) -> Non
             exc = CallFailed(inv["n"])
             inv["last"] = exc
             raise exc
-        r = Result((recv_name, typed(args), tuple(sorted((k, typed((v,))) for k, v in kwargs.items())), inv["n"], clock.now))
+        r = (AwaitableResult if case.get("awaitable") else Result)((recv_name, typed(args), tuple(sorted((k, typed((v,))) for k, v in kwargs.items())), inv["n"], clock.now))
         refs.append(weakref.ref(r))
         inv["last"] = weakref.ref(r)
         return r
@@ -311,6 +323,8 @@ def run_history(R: Recorder, case: dict[str, Any], verbose: bool = False) -> Non
         R.count("required_hit_after_reorder")
     if flags["slow"]:
         R.count("expiring_histories_with_slow_synchronous_invocations")
+    if case.get("awaitable"):
+        R.count("histories_with_awaitable_results")
     R.count("operations", len(hist))
     if case.get("colliding"):
         R.count("histories_with_hash_colliding_keys")
@@ -783,9 +797,10 @@ def random_case(rng: random.Random) -> dict[str, Any]:
         for op in hist:
             if op[0] == "call" and wr.random() < 0.35:
                 op.append(wr.choice([0.125, 0.25, 0.5, 1.0]))
+    extra: dict[str, Any] = {"awaitable": True} if wr.random() < 0.25 else {}
     if collide_pool:
-        return {"flavour": flavour, "limit": limit, "exp": exp, "form": rng.choice(["pos", "kw"]), "hist": hist, "colliding": True}
-    return {"flavour": flavour, "limit": limit, "exp": exp, "form": "kw" if twin_pool and rng.random() < 0.7 else rng.choice(["pos", "pos", "kw"]), "hist": hist}
+        return {"flavour": flavour, "limit": limit, "exp": exp, "form": rng.choice(["pos", "kw"]), "hist": hist, "colliding": True, **extra}
+    return {"flavour": flavour, "limit": limit, "exp": exp, "form": "kw" if twin_pool and rng.random() < 0.7 else rng.choice(["pos", "pos", "kw"]), "hist": hist, **extra}
 
 
 def argname_wrappers() -> dict[str, tuple[Any, bool, bool]]:
